@@ -4,4 +4,5 @@ CONSTANTS
   ArchSize = 8
   DEV_OccAddsOrientation = FALSE
   DEV_PbWriteTouchesDefaultdict = FALSE
+  DEV_NetworkCopyShallow = FALSE
 PROPERTY PropFrame
